@@ -526,6 +526,142 @@ Proof.
   - unfold run_res. cbn [fst snd]. unfold bind, ret. destruct (run_list k ws None s) as [[[]|y] s1]; reflexivity.
 Qed.
 
+(* ---- constructs with a cell: [q] and reduce (with_cell restores the state on exit) ---- *)
+
+Definition coll (c : N) : K :=
+  fun x _ => a <- get_cell c ;;
+             match fst a with
+             | VArr l => set_cell c (plain (VArr (fst x :: l)))
+             | _ => skipM "cell"
+             end.
+
+Lemma set_cells_twice s a b : set_cells (set_cells s a) b = set_cells s b.
+Proof. reflexivity. Qed.
+
+Lemma coll_step c cs w acc s0 : cells s0 = (c, plain (VArr acc)) :: cs ->
+  coll c (plain w) None s0 = (inl tt, set_cells s0 ((c, plain (VArr (w :: acc))) :: cs)).
+Proof.
+  intros Hc. unfold coll, bind, get_cell. rewrite Hc. cbn [cell_lookup]. rewrite N.eqb_refl. cbn [fst plain].
+  unfold set_cell. rewrite Hc. cbn [cell_update]. rewrite N.eqb_refl. reflexivity.
+Qed.
+
+Lemma coll_run c cs ws e : forall acc s0, cells s0 = (c, plain (VArr acc)) :: cs ->
+  run_list (coll c) ws e s0 =
+  (match e with None => inl tt | Some x => inr x end, set_cells s0 ((c, plain (VArr (rev ws ++ acc))) :: cs)).
+Proof.
+  induction ws as [|w r IH]; intros acc s0 Hc; cbn [run_list].
+  - cbn [rev app]. rewrite <- Hc. destruct s0; destruct e; reflexivity.
+  - unfold bind. rewrite (coll_step c cs w acc s0 Hc).
+    rewrite (IH (w :: acc) (set_cells s0 ((c, plain (VArr (w :: acc))) :: cs)) eq_refl).
+    rewrite set_cells_twice. cbn [rev]. rewrite <- app_assoc. reflexivity.
+Qed.
+
+Lemma coll_ok c : K_ok (fun s => repsens s = rs) (coll c).
+Proof.
+  intros w s Hs. unfold coll, bind, get_cell. destruct (cell_lookup (cells s) c) as [[a i]|]; [|exact Hs].
+  cbn [fst]. destruct a; exact Hs.
+Qed.
+
+Lemma sim_array q : sim q -> sim (Z0Array q).
+Proof.
+  intros Hq n rho v k s Inv Hn Hr HI Hk Hs. cbn [need] in Hn. do 3 (destruct n as [|n]; [lia|]).
+  cbn [emb den0]. unfold eval_q, q_term. cbn [evals_n step ev_q step_eval_q push_defs fold_left ev_t step_eval_t rev app scoped_ids].
+  fold_eval. unfold with_cell.
+  change (fun (x : tv) (_ : pst) => a <- get_cell (nextid s);; match fst a with
+            | VArr l => set_cell (nextid s) (plain (VArr (fst x :: l))) | _ => skipM "cell" end) with (coll (nextid s)).
+  set (st := mkst (outs s) (nout s) (cap s) (nextid s + 1)%N (inputs s) ((nextid s, plain (VArr [])) :: cells s) (repsens s) (steps s)).
+  rewrite (Hq _ _ _ _ _ (fun s1 => repsens s1 = rs)); [|lia|assumption|auto|apply coll_ok|exact (HI _ Hs)].
+  unfold run_res. rewrite (coll_run (nextid s) (cells s) (fst (den0 rs q rho v)) (snd (den0 rs q rho v)) [] st eq_refl).
+  subst st.
+  destruct (den0 rs q rho v) as [ws [x|]]; cbn [fst snd set_cells cells cell_lookup cell_remove outs nout cap nextid inputs repsens steps].
+  - rewrite N.eqb_refl. destruct s; reflexivity.
+  - rewrite !N.eqb_refl. cbn [fst plain]. rewrite app_nil_r. unfold rev'. rewrite <- rev_alt, rev_involutive.
+    change (run_list k [VArr ws] None s) with (run_res k ([VArr ws], None) s). rewrite run_single. destruct s; reflexivity.
+Qed.
+
+Definition setter (c : N) : K := fun u _ => set_cell c u.
+
+Lemma last_cons {A} (u : A) r acc : last (u :: r) acc = last r u.
+Proof. revert u. induction r as [|a r IH]; intros u; [reflexivity|]. cbn [last] in *. destruct r; [reflexivity|apply IH]. Qed.
+
+Lemma setter_run c cs us e : forall acc s1, cells s1 = (c, plain acc) :: cs ->
+  run_list (setter c) us e s1 =
+  (match e with None => inl tt | Some x => inr x end, set_cells s1 ((c, plain (last us acc)) :: cs)).
+Proof.
+  induction us as [|u r IH]; intros acc s1 Hc; cbn [run_list].
+  - cbn [last]. rewrite <- Hc. destruct s1; destruct e; reflexivity.
+  - unfold bind, setter at 1, set_cell. rewrite Hc. cbn [cell_update]. rewrite N.eqb_refl.
+    rewrite (IH u (set_cells s1 ((c, plain u) :: cs)) eq_refl). rewrite set_cells_twice, last_cons. reflexivity.
+Qed.
+
+Lemma sim_reduce src x init upd : is_var_name x = true -> sim src -> sim init -> sim upd -> sim (Z0Reduce src x init upd).
+Proof.
+  intros Hx Hsrc Hinit Hupd n rho v k s Inv Hn Hr HI Hk Hs. cbn [need] in Hn. do 4 (destruct n as [|n]; [lia|]).
+  destruct x as [|cx x]; [discriminate Hx|].
+  cbn [emb]. unfold eval_q, q_term. cbn [evals_n step ev_q step_eval_q push_defs fold_left ev_t step_eval_t rev app].
+  fold_eval.
+  set (upd0 := fun w acc => den0 rs upd (BVar (cx :: x) (plain w) :: rho) acc).
+  set (Kitem := fun (c : N) (item : tv) (ps1 : pst) =>
+         ev_bindpat (step bs (step bs (evals_n bs n))) rho (Pattern (cx :: x) [] []) item ps1
+           (fun rho' ps2 => cur <- get_cell c ;; eval_q bs (S (S n)) rho' (emb upd) cur ps2 (fun u _ => set_cell c u))).
+  set (F := fun s0 : jv =>
+         let '(ws, sx) := den0 rs src rho v in
+         match reduce_fold0 upd0 ws s0 with
+         | inr e => ([], Some e)
+         | inl acc => match sx with Some e => ([], Some e) | None => ([acc], None) end
+         end).
+  pose (InvC := fun (c : N) (cs : list (N * tv)) (s1 : sst) => repsens s1 = rs /\ exists acc, cells s1 = (c, plain acc) :: cs).
+  (* one item *)
+  assert (Hitem : forall c cs w acc s1, cells s1 = (c, plain acc) :: cs -> repsens s1 = rs ->
+            Kitem c (plain w) None s1 =
+            (match snd (upd0 w acc) with None => inl tt | Some e => inr e end,
+             set_cells s1 ((c, plain (last (fst (upd0 w acc)) acc)) :: cs))).
+  { intros c cs w acc s1 Hc Hs1. unfold Kitem. cbn [ev_bindpat step step_bind_pat].
+    unfold bind, get_cell. rewrite Hc. cbn [cell_lookup]. rewrite N.eqb_refl.
+    change (fun (u : tv) (_ : pst) => set_cell c u) with (setter c).
+    rewrite (Hupd _ _ _ _ _ (fun s2 => repsens s2 = rs)); [|lia|exact Hr|auto|intros u s2 H2; exact H2|exact Hs1].
+    unfold run_res. apply (setter_run c cs _ _ acc s1 Hc). }
+  assert (HKitem : forall c cs, K_ok (InvC c cs) (Kitem c)).
+  { intros c cs w s1 [Hs1 [acc Hc]]. rewrite (Hitem c cs w acc s1 Hc Hs1). cbn [snd]. split; [exact Hs1|]. eexists. reflexivity. }
+  (* all items *)
+  assert (Hitems : forall c cs ws sx acc s1, cells s1 = (c, plain acc) :: cs -> repsens s1 = rs ->
+            exists a', run_list (Kitem c) ws sx s1 =
+            (match reduce_fold0 upd0 ws acc with
+             | inr e => inr e
+             | inl _ => match sx with None => inl tt | Some e => inr e end
+             end, set_cells s1 ((c, plain a') :: cs)) /\
+            (forall r, reduce_fold0 upd0 ws acc = inl r -> a' = r)).
+  { intros c cs ws sx. induction ws as [|w r IH]; intros acc s1 Hc Hs1; cbn [run_list reduce_fold0].
+    - exists acc. split; [rewrite <- Hc; destruct s1; destruct sx; reflexivity|]. intros r [= <-]. reflexivity.
+    - unfold bind. rewrite (Hitem c cs w acc s1 Hc Hs1).
+      destruct (upd0 w acc) as [us [e|]]; cbn [fst snd].
+      + exists (last us acc). split; [reflexivity|]. intros r0 E; discriminate.
+      + destruct (IH (last us acc) (set_cells s1 ((c, plain (last us acc)) :: cs)) eq_refl Hs1) as [a' [E1 E2]].
+        exists a'. rewrite E1, set_cells_twice. split; [reflexivity|exact E2]. }
+  (* the continuation of init *)
+  set (K' := fun (s0 : tv) (ps0 : pst) =>
+         with_cell (scoped_ids ps0) s0 (fun c => eval_q bs (S (S n)) rho (emb src) (plain v) ps0 (Kitem c)) (fun res => k res ps0)).
+  assert (HK' : forall w0 s', Inv s' -> K' (plain w0) None s' = run_res k (F w0) s').
+  { intros w0 s' Hs'. unfold K', with_cell. cbn [scoped_ids].
+    set (st := mkst (outs s') (nout s') (cap s') (nextid s' + 1)%N (inputs s') ((nextid s', plain w0) :: cells s') (repsens s') (steps s')).
+    rewrite (Hsrc _ _ _ _ _ (InvC (nextid s') (cells s'))); [|lia|exact Hr|intros s0 [H0 _]; exact H0|apply HKitem|split; [exact (HI _ Hs')|eexists; reflexivity]].
+    unfold run_res.
+    destruct (Hitems (nextid s') (cells s') (fst (den0 rs src rho v)) (snd (den0 rs src rho v)) w0 st eq_refl (HI _ Hs')) as [a' [E1 E2]].
+    rewrite E1. unfold F. destruct (den0 rs src rho v) as [ws sx]. cbn [fst snd] in *.
+    destruct (reduce_fold0 upd0 ws w0) as [acc|e] eqn:ER.
+    - specialize (E2 acc eq_refl). subst a'. destruct sx as [e|];
+        cbn [set_cells cells cell_lookup cell_remove outs nout cap nextid inputs repsens steps]; rewrite ?N.eqb_refl.
+      + subst st. destruct s'; reflexivity.
+      + change (run_list k (fst ([acc], None)) (snd ([acc], None)) s') with (run_res k ([acc], None) s'). rewrite run_single. subst st. destruct s'; reflexivity.
+    - cbn [set_cells cells cell_remove outs nout cap nextid inputs repsens steps]. rewrite N.eqb_refl. subst st. destruct s'; reflexivity. }
+  assert (HKok : K_ok Inv K').
+  { intros w0 s' Hs'. rewrite HK' by exact Hs'. apply (run_list_ok Inv); assumption. }
+  change (eval_q bs (S (S n)) rho (emb init) (plain v) None K' s = run_res k (den0 rs (Z0Reduce src (cx :: x) init upd) rho v) s).
+  rewrite (Hinit _ _ _ _ _ Inv) by (try lia; assumption). unfold run_res at 1.
+  rewrite (run_list_ext Inv _ (fun x0 _ => run_res k (F (fst x0)))); try assumption.
+  rewrite (run_rbind k F). cbn [den0]. destruct (den0 rs init rho v); reflexivity.
+Qed.
+
 Lemma syn_depth_S : exists d, syn_depth = S d.
 Proof. eexists. vm_compute. reflexivity. Qed.
 
@@ -566,6 +702,8 @@ Proof.
   - apply sim_length.
   - apply sim_bind; [tauto|apply sem_den0; tauto|apply sem_den0; tauto].
   - apply sim_var. exact H.
+  - apply sim_array. apply sem_den0. exact H.
+  - apply sim_reduce; [tauto|apply sem_den0; tauto|apply sem_den0; tauto|apply sem_den0; tauto].
 Qed.
 
 (* observation level: when the generator ends before the cap, the observation is the list *)
